@@ -304,12 +304,13 @@ func (vrProbe) Height() uint32             { return 0 }
 func (vrProbe) ChainTip() wire.BlockHeader { return wire.BlockHeader{} }
 
 type vrSub struct {
-	real      *blockntfns.Subscription
-	out       chan blockntfns.BlockNtfn
-	mu        sync.Mutex
-	pending   []blockntfns.BlockNtfn
-	got, want int
-	cancelled bool
+	real       *blockntfns.Subscription
+	out        chan blockntfns.BlockNtfn
+	mu         sync.Mutex
+	pending    []blockntfns.BlockNtfn
+	got, want  int
+	cancelled  bool
+	registered bool
 }
 
 func (s *vrSub) pump() {
@@ -468,20 +469,36 @@ func (c *vrChain) IsCurrent() bool {
 }
 
 func (c *vrChain) Subscribe(h uint32) (*blockntfns.Subscription, error) {
+	// The channel the rescan will listen on exists before the call is
+	// released, so the driver can offer its probe on it without racing
+	// with the registration.
+	s := &vrSub{out: make(chan blockntfns.BlockNtfn)}
+	c.mu.Lock()
+	c.subs = append(c.subs, s)
+	c.mu.Unlock()
+	fail := func() {
+		s.mu.Lock()
+		s.cancelled = true
+		s.mu.Unlock()
+	}
 	g, rep := c.gate("Sub", int(h))
 	if rep.shutdown {
 		g.res = "err"
+		fail()
 		return nil, errVrDown
 	}
 	real, err := c.mgr.NewSubscription(h)
 	if err != nil {
 		g.res = "err"
+		fail()
 		return nil, err
 	}
-	s := &vrSub{real: real, out: make(chan blockntfns.BlockNtfn)}
 	c.mu.Lock()
+	s.mu.Lock()
+	s.real = real
 	s.want = c.lastBacklog
-	c.subs = append(c.subs, s)
+	s.registered = true
+	s.mu.Unlock()
 	c.mu.Unlock()
 	go s.pump()
 	return &blockntfns.Subscription{
@@ -543,7 +560,7 @@ func (c *vrChain) emit(n blockntfns.BlockNtfn) error {
 	var live []*vrSub
 	for _, s := range c.subs {
 		s.mu.Lock()
-		if !s.cancelled {
+		if !s.cancelled && s.registered {
 			s.want++
 			live = append(live, s)
 		}
@@ -583,9 +600,10 @@ type vrRun struct {
 	cbs  []vrEv
 	seen int
 
-	gate  *vrGate // the call the rescan is parked in, nil otherwise
-	atSel bool
-	st    int
+	gate   *vrGate // the call the rescan is parked in, nil otherwise
+	atSel  bool
+	updOut bool // an update was sent and is not known to have been taken
+	st     int
 }
 
 func (x *vrRun) record(e vrEv) {
@@ -679,8 +697,13 @@ func (x *vrRun) settle(probe bool, d time.Duration) error {
 			return errVrHang
 		}
 		// The select may have preferred the probe to an update that is
-		// waiting in the channel: it takes the update next.
-		if x.atSel && len(x.r.updateChan) > 0 {
+		// waiting in the channel; it takes the update next, and may be
+		// busy with it right now.  Only a probe received while no update
+		// is outstanding shows that the goroutine is parked.
+		if x.atSel && x.updOut {
+			if len(x.r.updateChan) == 0 {
+				x.updOut = false
+			}
 			continue
 		}
 		return nil
@@ -792,7 +815,9 @@ func vrRunPath(w *vrWorld, p vrPathIn) (out vrPathOut) {
 		x.teardown()
 	}()
 	out.InitObs = x.obs()
-	const tmo = 30 * time.Second
+	// normal steps take well under a millisecond, the retry timer 100 ms
+	const tmo = 10 * time.Second
+	const retryTmo = 3 * time.Second
 	for _, s := range p.Steps {
 		a := s.Act
 		if a.Add == nil {
@@ -856,6 +881,7 @@ func vrRunPath(w *vrWorld, p vrPathIn) (out vrPathOut) {
 					Note: "no select to deliver a notification to"})
 				return
 			}
+			sub.waitArrived(retryTmo)
 			sub.mu.Lock()
 			var n blockntfns.BlockNtfn
 			if len(sub.pending) > 0 {
@@ -895,7 +921,7 @@ func vrRunPath(w *vrWorld, p vrPathIn) (out vrPathOut) {
 
 		case a.Op == "Retry":
 			if x.gate == nil && x.st == 0 {
-				if err := x.settle(false, tmo); err != nil {
+				if err := x.settle(false, retryTmo); err != nil {
 					out.Steps = append(out.Steps, vrStepOut{Act: a, Obs: x.obs(),
 						Note: "the retry timer did not fire"})
 					return
@@ -905,6 +931,8 @@ func vrRunPath(w *vrWorld, p vrPathIn) (out vrPathOut) {
 		case a.Op == "SendUpd":
 			if err := x.sendUpdate(a); err != nil {
 				note = "Update: " + err.Error()
+			} else {
+				x.updOut = true
 			}
 			if err := x.settle(true, tmo); err != nil {
 				out.Error = "after SendUpd: hang\n" + vrDump()
